@@ -71,6 +71,24 @@ pub fn run_case(case: &J) -> J {
         }
         "user-module-std" => root.submodules.push(("std".into(), Module::default())),
         "duplicate-module" => root.submodules.push(("a".into(), Module::default())),
+        // the same module name twice further down: below a module that has one submodule only, and directly below `a`
+        "duplicate-module-nested" => {
+            let (mut p, mut q, mut x1, mut x2) = (Module::default(), Module::default(), Module::default(), Module::default());
+            x1.functions.push(("g1".into(), who_fn("p.q.x.g1")));
+            x2.functions.push(("g2".into(), who_fn("p.q.x.g2")));
+            q.submodules.push(("x".into(), x1));
+            q.submodules.push(("x".into(), x2));
+            p.submodules.push(("q".into(), q));
+            root.submodules.push(("p".into(), p));
+        }
+        "duplicate-module-below-a" => {
+            let (mut d1, mut d2) = (Module::default(), Module::default());
+            d1.functions.push(("g1".into(), who_fn("a.d.g1")));
+            d2.functions.push(("g2".into(), who_fn("a.d.g2")));
+            let a = module_at(&mut root, &["a".to_string()]);
+            a.submodules.push(("d".into(), d1));
+            a.submodules.push(("d".into(), d2));
+        }
         "no-main" => main_name = "start",
         other => panic!("unknown flaw {other}"),
     }
